@@ -22,10 +22,10 @@
  * (unwinding assertions: the cursor strictly advances); no die() (SIGABRT); return value 0 or
  * -1; pwrite stays inside the file and below the closing marker; the file size is unchanged.
  *
- * Known finding guard KF_SORT_CLOCK63: cmp_ev orders clocks as int64_t, find_min_clock /
- * find_destination / ring_check as uint64_t: a sort region holding a clock >= 2^63 and a clock
- * < 2^63 is sorted "negative first" and ring_check then die()s ("ring not sorted": SIGABRT).
- * Excluded signature: some event clock >= 2^63.
+ * -DKF_SORT_CLOCK63 (off by default; fixed in the tree by 4c9aab9) excludes the signature of the
+ * former finding: cmp_ev ordered clocks as int64_t, find_min_clock / find_destination /
+ * ring_check as uint64_t, so a region holding a clock >= 2^63 and one < 2^63 was sorted
+ * "negative first" and ring_check die()d (SIGABRT).
  */
 #include "diag.h"
 #include <fcntl.h>
@@ -168,10 +168,31 @@ harness(void)
 #ifdef PA
 	V_ASSUME(IN.a == PA && IN.b == PB);  /* region position fixed per query */
 #endif
-#if defined(KF_SORT_CLOCK63) || defined(CHECKMODE)
-	/* clocks < 2^63 at every position where an event can start (clock bytes 4..11, top bit of
-	 * byte 11).  CHECKMODE: stream_step computes `clock - lastclock` in int64_t, which overflows
-	 * (formal UB, wraps in practice, no crash) only when some clock is >= 2^63: noted, excluded. */
+	/* Clock arithmetic of stream_step is signed 64-bit (`clock - lastclock`): a difference that
+	 * does not fit is formal UB (wraps in practice, no crash; noted).  Every event clock, read
+	 * as int64_t, is in [-2^62, 2^62): the top two bits of its last byte are equal.  Clocks with
+	 * the top bit set (>= 2^64 - 2^62 unsigned) stay in scope: ovnisort must order them
+	 * consistently.  The event starts come from an independent reference walk over the bytes. */
+	{
+		int64_t o = 0;
+		for (int k = 0; k <= MAXEV; k++) {
+			if (o + 12 > IN.size) break;
+			uint8_t top = IN.buf[o + 11] >> 6;
+			V_ASSUME(top == 0 || top == 3);
+			int64_t sz;
+			if (IN.buf[o] & 0x10) {
+				if (o + 16 > IN.size) break;
+				sz = 16 + (int64_t) ((uint32_t) IN.buf[o + 12] | ((uint32_t) IN.buf[o + 13] << 8) | ((uint32_t) IN.buf[o + 14] << 16) | ((uint32_t) IN.buf[o + 15] << 24));
+			} else {
+				int n = IN.buf[o] & 0x0f;
+				sz = 12 + (n ? n + 1 : 0);
+			}
+			if (o + sz > IN.size) break;
+			o += sz;
+		}
+	}
+#ifdef KF_SORT_CLOCK63
+	/* signature of the former finding (fixed by 4c9aab9): some clock >= 2^63 */
 	for (int64_t o = 0; o + 12 <= MAXSZ; o++)
 		if (o + 12 <= IN.size)
 			V_ASSUME((IN.buf[o + 11] & 0x80) == 0);
